@@ -111,7 +111,8 @@ fn after_packet_params(chip: &str, sf: usize, bw: usize) -> Result<Option<(bool,
     let is72 = chip == "sx1272";
     let mut out = vec![];
     let mut decision = None;
-    for prior in 0..=255u8 {
+    for (prior, combo) in (0..=255u8).flat_map(|p| (0..8u8).map(move |c| (p, c))) {
+        let (implicit, crc_on, iq) = (combo & 1 != 0, combo & 2 == 0, combo & 4 != 0);
         let mut model = Sx127xChip::new(is72);
         model.regs[0x01] = 0x81;
         model.regs[if is72 { 0x1D } else { 0x26 }] = prior;
@@ -124,7 +125,7 @@ fn after_packet_params(chip: &str, sf: usize, bw: usize) -> Result<Option<(bool,
                         Err(_) => None,
                         Ok(mp) => {
                             // implicit header for SF6 (the only form the chip supports there)
-                            let pp = radio.create_packet_params(8, s == lora_modulation::SpreadingFactor::_6, 12, true, false, &mp);
+                            let pp = radio.create_packet_params(8, implicit || s == lora_modulation::SpreadingFactor::_6, 12, crc_on, iq, &mp);
                             match pp {
                                 Err(_) => None,
                                 Ok(pp) => {
@@ -160,7 +161,8 @@ fn after_packet_params(chip: &str, sf: usize, bw: usize) -> Result<Option<(bool,
 
 /// ops: 0 prepare_for_tx, 1 prepare_for_rx(Single), 2 prepare_for_rx(Continuous), 3 prepare_for_cad;
 /// middle: 0 nothing, 1 the operation runs to completion (tx / start_rx + complete_rx / cad),
-/// 2 listen() on the same channel, 3 start_rx only (reception left running)
+/// 2 listen() on the same channel, 3 start_rx only (reception left running), 4 init() (the chip is reset and
+/// loses its registers), 5 sleep(cold), 6 sleep(warm), 7 the operation completes, then init()
 #[derive(Clone, Debug, Serialize, Deserialize)]
 pub struct SeqCase {
     pub chip: String,
@@ -169,14 +171,21 @@ pub struct SeqCase {
     pub middle: u8,
     pub second: (usize, usize),
     pub op2: u8,
+    /// packets without payload CRC (and inverted IQ on transmit)
+    #[serde(default)]
+    pub crc_off: bool,
+    /// single step (`first`, `op1`): the chip's LDRO bit is compared with the decision itself
+    #[serde(default)]
+    pub against_rule: bool,
 }
 
 /// (sf, bw code, ldro) as the chip holds them; None when a step of the sequence was refused / failed.
-fn run_seq(chip: &str, steps: &[((usize, usize), u8, u8)]) -> Result<Option<(u8, u8, bool)>, String> {
+fn run_seq(chip: &str, steps: &[((usize, usize), u8, u8)], crc_off: bool) -> Result<Option<(u8, u8, bool)>, String> {
     use crate::chips::{Sx126xChip, Sx127xChip};
     use lora_phy::{LoRa, RxMode};
     let is126 = chip == "sx1262";
-    let env = if is126 { Env::new(Box::new(Sx126xChip::new())) } else { Env::new(Box::new(Sx127xChip::new(false))) };
+    let is72 = chip == "sx1272";
+    let env = if is126 { Env::new(Box::new(Sx126xChip::new())) } else { Env::new(Box::new(Sx127xChip::new(is72))) };
     let e2 = env.clone();
     let ok = catch(move || -> Option<()> {
         let payload = [0x40u8, 1, 2, 3, 4, 5, 6, 7, 8, 9, 10, 11];
@@ -185,8 +194,8 @@ fn run_seq(chip: &str, steps: &[((usize, usize), u8, u8)]) -> Result<Option<(u8,
                 let mut l = drive(LoRa::new($rk, true, e2.delay()))?.ok()?;
                 for &((sf, bw), op, middle) in steps {
                     let mp = l.create_modulation_params(SFS[sf], BWS[bw], CodingRate::_4_5, 868_100_000).ok()?;
-                    let mut txp = l.create_tx_packet_params(8, false, true, false, &mp).ok()?;
-                    let rxp = l.create_rx_packet_params(8, false, 64, true, true, &mp).ok()?;
+                    let mut txp = l.create_tx_packet_params(8, false, !crc_off, crc_off, &mp).ok()?;
+                    let rxp = l.create_rx_packet_params(8, false, 64, !crc_off, true, &mp).ok()?;
                     let mut buf = [0u8; 64];
                     match op {
                         0 => drive(l.prepare_for_tx(&mp, &mut txp, 14, &payload))?.ok()?,
@@ -207,6 +216,13 @@ fn run_seq(chip: &str, steps: &[((usize, usize), u8, u8)]) -> Result<Option<(u8,
                             drive(l.listen(868_100_000, BWS[bw]))?.ok()?;
                         }
                         (3, 1) | (3, 2) => drive(l.start_rx())?.ok()?,
+                        (7, 0) => {
+                            drive(l.tx())?.ok()?;
+                            drive(l.init())?.ok()?;
+                        }
+                        (4, _) | (7, _) => drive(l.init())?.ok()?,
+                        (5, _) => drive(l.sleep(false))?.ok()?,
+                        (6, _) => drive(l.sleep(true))?.ok()?,
                         _ => {}
                     }
                 }
@@ -215,6 +231,8 @@ fn run_seq(chip: &str, steps: &[((usize, usize), u8, u8)]) -> Result<Option<(u8,
         }
         if is126 {
             go!(sx126x::Sx126x::new(e2.spi(), e2.iv(), sx126x::Config { chip: sx126x::Sx1262, tcxo_ctrl: None, use_dcdc: true, rx_boost: false }))
+        } else if is72 {
+            go!(sx127x::Sx127x::new(e2.spi(), e2.iv(), sx127x::Config { chip: sx127x::Sx1272, tcxo_used: false, tx_boost: false, rx_boost: false }))
         } else {
             go!(sx127x::Sx127x::new(e2.spi(), e2.iv(), sx127x::Config { chip: sx127x::Sx1276, tcxo_used: false, tx_boost: false, rx_boost: false }))
         }
@@ -225,14 +243,33 @@ fn run_seq(chip: &str, steps: &[((usize, usize), u8, u8)]) -> Result<Option<(u8,
     Ok(Some(if is126 {
         env.with_chip::<Sx126xChip, _>(|c| (c.mod_params[0], c.mod_params[1], c.mod_params[3] & 1 != 0))
     } else {
-        env.with_chip::<Sx127xChip, _>(|c| (c.regs[0x1E] >> 4, c.regs[0x1D] >> 4, c.regs[0x26] & 0x08 != 0))
+        env.with_chip::<Sx127xChip, _>(|c| if is72 { (c.regs[0x1E] >> 4, c.regs[0x1D] >> 6, c.regs[0x1D] & 0x01 != 0) } else { (c.regs[0x1E] >> 4, c.regs[0x1D] >> 4, c.regs[0x26] & 0x08 != 0) })
     }))
 }
 
 pub fn eval_seq(c: &SeqCase) -> Vec<(String, String)> {
+    if c.against_rule {
+        let chip = &c.chip;
+        let (sf, bw) = c.first;
+        return match run_seq(chip, &[((sf, bw), c.op1, 0)], c.crc_off) {
+            Err(p) => vec![(format!("C15|{chip}|front-end|panic|{}", panic_site(&p)), p)],
+            Ok(Some((_, _, ldro))) => {
+                let want = BaseBandModulationParams::new(SFS[sf], BWS[bw], CodingRate::_4_5).ldro;
+                if ldro != want {
+                    vec![(
+                        format!("C15|{chip}|front-end|chip-ldro-differs-from-decision"),
+                        format!("{chip}: prepare op{} SF{}/{} Hz (crc_off {}): the chip holds LDRO {ldro}, the decision is {want}", c.op1, SFS[sf].factor(), BWS[bw].hz(), c.crc_off),
+                    )]
+                } else {
+                    vec![]
+                }
+            }
+            Ok(None) => vec![],
+        };
+    }
     let tag = format!("{}|sequence", c.chip);
-    let seq = run_seq(&c.chip, &[(c.first, c.op1, c.middle), (c.second, c.op2, 0)]);
-    let alone = run_seq(&c.chip, &[(c.second, c.op2, 0)]);
+    let seq = run_seq(&c.chip, &[(c.first, c.op1, c.middle), (c.second, c.op2, 0)], c.crc_off);
+    let alone = run_seq(&c.chip, &[(c.second, c.op2, 0)], c.crc_off);
     match (seq, alone) {
         (Err(p), _) | (_, Err(p)) => vec![(format!("C15|{tag}|panic|{}", panic_site(&p)), p)],
         (Ok(Some(a)), Ok(Some(b))) if a != b => {
@@ -340,26 +377,48 @@ pub fn run(tier: Tier, replay: Option<&str>) {
     let mods: [(usize, usize); 5] = [(2, 7), (4, 7), (6, 7), (7, 7), (7, 8)];
     let mut seq_cases = 0u64;
     let mut seq_effective = 0u64;
-    for chip in ["sx1262", "sx1276"] {
+    for chip in ["sx1262", "sx1276", "sx1272"] {
         for &first in &mods {
             for &second in &mods {
                 for op1 in 0..4u8 {
-                    for middle in 0..4u8 {
+                    for middle in 0..8u8 {
                         if middle == 3 && !(op1 == 1 || op1 == 2) {
                             continue;
                         }
                         for op2 in 0..4u8 {
-                            let c = SeqCase { chip: chip.into(), first, op1, middle, second, op2 };
-                            let v = eval_seq(&c);
-                            seq_cases += 1;
-                            if matches!(run_seq(chip, &[(first, op1, middle), (second, op2, 0)]), Ok(Some(_))) {
-                                seq_effective += 1;
+                            for crc_off in [false, true] {
+                                if crc_off && !(middle == 0 || middle == 4) {
+                                    continue;
+                                }
+                                let c = SeqCase { chip: chip.into(), first, op1, middle, second, op2, crc_off, against_rule: false };
+                                let v = eval_seq(&c);
+                                seq_cases += 1;
+                                if matches!(run_seq(chip, &[(first, op1, middle), (second, op2, 0)], crc_off), Ok(Some(_))) {
+                                    seq_effective += 1;
+                                }
+                                for (sig, what) in v {
+                                    ctx.violation(sig, what, serde_json::to_value(&c).unwrap(), 2);
+                                }
+                                ctx.tick(1);
                             }
-                            for (sig, what) in v {
-                                ctx.violation(sig, what, serde_json::to_value(&c).unwrap(), 2);
-                            }
-                            ctx.tick(1);
                         }
+                    }
+                }
+            }
+        }
+    }
+    // the decision a fresh driver programs is itself the rule's: after every sequence above the chip was compared with
+    // a fresh driver, and a fresh driver's LDRO bit with the rule here (through the LoRa front-end, CRC on and off)
+    for chip in ["sx1262", "sx1276", "sx1272"] {
+        for sf in 0..8usize {
+            for bw in 0..10usize {
+                for op in 0..4u8 {
+                    for crc_off in [false, true] {
+                        let c = SeqCase { chip: chip.into(), first: (sf, bw), op1: op, middle: 0, second: (sf, bw), op2: op, crc_off, against_rule: true };
+                        for (sig, what) in eval_seq(&c) {
+                            ctx.violation(sig, what, serde_json::to_value(&c).unwrap(), 1);
+                        }
+                        ctx.tick(1);
                     }
                 }
             }
@@ -374,7 +433,7 @@ pub fn run(tier: Tier, replay: Option<&str>) {
         "sequences_run_to_the_end": seq_effective,
         "evaluations": ctx.evals(),
         "distinct_nontrivial": supported,
-        "rule": "all 8 spreading factors x 10 bandwidths x {airtime calculator, SX1261, SX1262, STM32WL LP/HP, SX1272, SX1276, LR1110}; for every pair the chip accepts: the decision in ModulationParams / BaseBandModulationParams and the LDRO bit actually written on SPI by set_modulation_params (for the register-based SX127x with all 256 prior values of the read-modify-write register) against the exact rational rule 2^SF/BW >= 16.38 ms; for the SX127x additionally the bit left in the chip model's register file after the usual set_modulation_params -> set_packet_params sequence; sequences through the LoRa front-end on one driver instance (SX1262, SX1276 chip models): {prepare_for_tx, prepare_for_rx single/continuous, prepare_for_cad} with one modulation, {nothing, operation completed, listen(), reception left running}, then a prepare_for_* with a second modulation: the chip's SF/BW/LDRO must equal what a fresh driver programs; non-trivial = pairs the chip supports",
+        "rule": "all 8 spreading factors x 10 bandwidths x {airtime calculator, SX1261, SX1262, STM32WL LP/HP, SX1272, SX1276, LR1110}; for every pair the chip accepts: the decision in ModulationParams / BaseBandModulationParams and the LDRO bit actually written on SPI by set_modulation_params (for the register-based SX127x with all 256 prior values of the read-modify-write register) against the exact rational rule 2^SF/BW >= 16.38 ms; for the SX127x additionally the bit left in the chip model's register file after set_modulation_params -> set_packet_params for every combination of header mode, payload CRC and IQ inversion; every pair through the LoRa front-end (prepare_for_tx / rx / cad, CRC on and off): the chip's LDRO bit equals the decision; sequences through the LoRa front-end on one driver instance (SX1262, SX1276, SX1272 chip models): {prepare_for_tx, prepare_for_rx single/continuous, prepare_for_cad} with one modulation, {nothing, operation completed, listen(), reception left running, init() (chip reset), sleep cold / warm, completed then init()}, then a prepare_for_* with a second modulation (the same one included): the chip's SF/BW/LDRO must equal what a fresh driver programs; non-trivial = pairs the chip supports",
         "samples": [serde_json::to_value(Case { chip: "sx1276".into(), sf: 6, bw: 7 }).unwrap(), serde_json::to_value(Case { chip: "sx1262".into(), sf: 7, bw: 6 }).unwrap()],
         "exhaustive": true,
         "pairs_supported": supported,
